@@ -1,7 +1,7 @@
 (* C13 — Client accounting: ops are queued, pending or resulted; converged = answered.
    Statements only; the model is Client/Queues.v, the proofs are in Client/QueuesFacts.v.
    All statements are about every sequence of events
-     Q m | StartSending | StopSending | Resp r | RecvErr | SendErr | Await
+     Q m | StartSending | StopSending | Resp r | RecvErr | SendErr | Eof | Await
    (application calls and arbitrary server behaviour: any order across ids, any batching of results
    into responses, interleaved election / session-parameter responses, unknown ids, duplicate
    results, stream failures) in which the queued operation ids are pairwise distinct, for every
